@@ -188,6 +188,8 @@ func (e entry) key() string {
 type rmodel struct {
 	cs   RoamCase
 	cols [2]map[string]pos
+	// sizes of the old / new neighbourhood of the last fenced SET (evidence)
+	lastOldN, lastNewN int
 }
 
 func globOK(pat, id string) bool {
@@ -230,6 +232,7 @@ func (m *rmodel) neighbours(id string, p pos) map[string]float64 {
 
 // apply executes a step on the model and returns the expected entries.
 func (m *rmodel) apply(s RStep) []entry {
+	m.lastOldN, m.lastNewN = 0, 0
 	col := m.cols[s.Col]
 	switch s.Op {
 	case "drop":
@@ -275,6 +278,7 @@ func (m *rmodel) apply(s RStep) []entry {
 	if had {
 		nOld = m.neighbours(s.ID, old)
 	}
+	m.lastOldN, m.lastNewN = len(nOld), len(nNew)
 	rc := 1
 	if m.cs.SameKey {
 		rc = 0
@@ -476,8 +480,44 @@ func genRoam(rt *rapid.T, maxSteps int) RoamCase {
 	if cs.SameKey {
 		rc = 0
 	}
-	// in 60% of the cases the collections are populated BEFORE the fence exists
-	if pct(rt, "pre") < 60 {
+	// crowd cases: a large neighbourhood (sizes around plausible thresholds of
+	// the implementation) is placed in the roam collection before the fence
+	// exists; a mover then hops around inside it, so that many neighbours
+	// dwell, enter and leave in one step
+	crowd := 0
+	var crowdIDs []string
+	crowdR := 1.0
+	if (cs.Pattern == "*" || cs.Pattern == "t*") && pct(rt, "crowd") < 9 {
+		crowd = pick(rt, "crowd-n", []int{1, 2, 3, 7, 8, 9, 10, 12, 16, 17, 20, 24, 32, 33, 48, 64, 70})
+		crowdR = pick(rt, "crowd-r", []float64{0.7, 1.0, 1.3, 1.7})
+		for i := 0; i < crowd; i++ {
+			id := fmt.Sprintf("t%02d", 10+i)
+			for try := 0; try < 5; try++ {
+				la, lo := destination(base.lat, base.lon, crowdR*cs.Radius*math.Sqrt(unif(rt, "crowd-d", 0, 1)), unif(rt, "crowd-b", 0, 360))
+				p := pos{round8(la), round8(lo)}
+				if g.clear(rc, id, p) {
+					g.add(RStep{Op: "set", Col: rc, ID: id, Lat: p.lat, Lon: p.lon, Note: "crowd"})
+					crowdIDs = append(crowdIDs, id)
+					break
+				}
+			}
+		}
+		cs.Pre = len(cs.Steps)
+	}
+	// hop: a move inside the crowd's disc
+	hop := func(col int, id, note string) bool {
+		for try := 0; try < 6; try++ {
+			la, lo := destination(base.lat, base.lon, math.Min(crowdR, 1.2)*cs.Radius*math.Sqrt(unif(rt, "hop-d", 0, 1)), unif(rt, "hop-b", 0, 360))
+			p := pos{round8(la), round8(lo)}
+			if g.clear(col, id, p) {
+				g.add(RStep{Op: "set", Col: col, ID: id, Lat: p.lat, Lon: p.lon, Note: note})
+				return true
+			}
+		}
+		return false
+	}
+	// in 60% of the other cases the collections are populated BEFORE the fence exists
+	if crowd == 0 && pct(rt, "pre") < 60 {
 		n := intn(rt, "pre-n", 2, 5)
 		for i := 0; i < n; i++ {
 			col := rc
@@ -544,6 +584,20 @@ func genRoam(rt *rapid.T, maxSteps int) RoamCase {
 			ids = otherIDs
 		}
 		id := pick(rt, "id", ids)
+		if crowd > 0 {
+			switch k := pct(rt, "crowd-step"); {
+			case k < 60: // a fleet object hops around inside the crowd
+				if hop(0, pick(rt, "hopper", fleet[:2]), fmt.Sprintf("hop in a crowd of %d", crowd)) {
+					sync(false)
+				}
+				continue
+			case k < 85 && len(crowdIDs) > 0: // a crowd member moves (a fenced SET when the fence roams its own key)
+				if hop(rc, pick(rt, "crowd-member", crowdIDs), "crowd member moves") {
+					sync(false)
+				}
+				continue
+			}
+		}
 		if pct(rt, "remove") < 9 {
 			remove()
 			continue
@@ -971,6 +1025,22 @@ func runRoam(t failer, c *ev.Collector, cs RoamCase) (info roamInfo) {
 					fa++
 				}
 			}
+			if on, nn := m.lastOldN, m.lastNewN; s.Op == "set" {
+				for _, th := range []int{8, 9, 16, 17, 32, 33, 64} {
+					if on >= th && nn >= th {
+						info.labels[fmt.Sprintf("step-with>=%d-neighbours-before-and-after", th)]++
+					}
+				}
+				if on*nn > 64 {
+					info.labels["step-with>64-old-x-new-pairs"]++
+					if cs.NoDwell {
+						info.labels["step-with>64-old-x-new-pairs:nodwell"]++
+					}
+					if fa > 0 && nb > 0 {
+						info.labels["step-with>64-pairs-and-arrivals-and-leavers"]++
+					}
+				}
+			}
 			if corner > 0 {
 				info.labels["step-with-corner-neighbour"]++
 				info.cornerNB += corner
@@ -1096,7 +1166,7 @@ func runRoam(t failer, c *ev.Collector, cs RoamCase) (info roamInfo) {
 func TestC20_Roam(t *testing.T) {
 	c := ev.New("C20", "roam", "exploration")
 	t.Cleanup(c.Flush)
-	c.Rule("per case one fence NEARBY fleet [MATCH g] FENCE [NODWELL] ROAM key2 pattern meters (key2 = fleet or another collection; pattern *, prefix glob, class glob or exact id; radius 200 m..50 km log-uniform; anywhere |lat|<=70) installed as channel + webhook (+ live connection with a barrier probe in part of the cases); 4..N steps, each SET moves/creates one point object of either collection to a position constructed from an existing object: distance d/r in {0.05,0.3,0.6,0.9,0.999,1.001,1.1,1.2,1.3,1.396,1.45,2.5} (jittered 4e-4) at bearing k*45 deg +-3 (45/135/225/315 with 1<d/r<1.41 = inside the search rectangle but outside the circle), occasionally DEL, and ~20% re-SETs of a fleet object at its exact current coordinates (same text, trailing zeros or exponent spelling; optionally with FIELD or EX), half of them right after a roam-collection object was moved into/out of its radius; in 60% of the cases 2-5 objects are SET before the fence is created (collections exist at creation time); ~9% of the steps remove a whole collection (fleet or the roam collection) by DROP, PDEL * or DEL down to the last object (rarely followed by a single SET EX 0.05 that expires) and re-populate it; every position keeps |d/r-1|>=1e-4 to every other object. Oracle: own haversine over the model's positions: nearby = other pattern-matching objects of key2 with d(new)<=r (minus, under NODWELL, those with d(old)<=r), faraway = d(old)<=r and d(new)>r, one message per entry, nothing else, meters = floor(d*1000)/1000 within 1e-3+1e-9 d; compared per step (a PUBLISH sentinel after every write delimits the channel stream). Non-trivial: a step whose new position has >=1 pattern-matching neighbour in the corner region or that yields >=2 entries, or a re-SET in place that yields >=1 entry, or a step with >=1 entry after the roam collection was removed and re-created under a fence that was created on an existing collection; distinct by (pattern, same/other key, NODWELL, radius, construction, counts).")
+	c.Rule("per case one fence NEARBY fleet [MATCH g] FENCE [NODWELL] ROAM key2 pattern meters (key2 = fleet or another collection; pattern *, prefix glob, class glob or exact id; radius 200 m..50 km log-uniform; anywhere |lat|<=70) installed as channel + webhook (+ live connection with a barrier probe in part of the cases); 4..N steps, each SET moves/creates one point object of either collection to a position constructed from an existing object: distance d/r in {0.05,0.3,0.6,0.9,0.999,1.001,1.1,1.2,1.3,1.396,1.45,2.5} (jittered 4e-4) at bearing k*45 deg +-3 (45/135/225/315 with 1<d/r<1.41 = inside the search rectangle but outside the circle), occasionally DEL, and ~20% re-SETs of a fleet object at its exact current coordinates (same text, trailing zeros or exponent spelling; optionally with FIELD or EX), half of them right after a roam-collection object was moved into/out of its radius; in 60% of the cases 2-5 objects are SET before the fence is created (collections exist at creation time); ~9% of the steps remove a whole collection (fleet or the roam collection) by DROP, PDEL * or DEL down to the last object (rarely followed by a single SET EX 0.05 that expires) and re-populate it; 9% of the cases with pattern * or t* are crowd cases: 1,2,3,7,8,9,10,12,16,17,20,24,32,33,48,64 or 70 neighbours are placed uniformly in a disc of 0.7..1.7 r in the roam collection before the fence exists, then fleet objects hop around inside the disc (many neighbours dwell, enter and leave in one step) and crowd members move; every position keeps |d/r-1|>=1e-4 to every other object. Oracle: own haversine over the model's positions: nearby = other pattern-matching objects of key2 with d(new)<=r (minus, under NODWELL, those with d(old)<=r), faraway = d(old)<=r and d(new)>r, one message per entry, nothing else, meters = floor(d*1000)/1000 within 1e-3+1e-9 d; compared per step (a PUBLISH sentinel after every write delimits the channel stream). Non-trivial: a step whose new position has >=1 pattern-matching neighbour in the corner region or that yields >=2 entries, or a re-SET in place that yields >=1 entry, or a step with >=1 entry after the roam collection was removed and re-created under a fence that was created on an existing collection; distinct by (pattern, same/other key, NODWELL, radius, construction, counts).")
 	c.Assume("message order within a step (nearby before faraway, by distance) is not part of the property: labelled, not judged; FSET/EXPIRE on a roam fence are out of scope")
 	maxSteps := ev.Pick(16, 24)
 	ev.Rapid("roam", ev.Pick(2500, 12000))
